@@ -488,7 +488,8 @@ class C14:
     rule = ("generated workflow DAG files (1-14 nodes, permuted / gapped labels, any density, isolated nodes, with and without "
             "task_data), observation names containing '_' and digits, clocks; the plan returned by Planner.run with the shipped "
             "BatchPlanning is compared with the JSON graph; a third of the cases are histories of 2-4 observations planned by ONE planner "
-            "instance (workflow files side by side, in sub-directories under the same file name, or shared), each plan compared with its own graph; non-trivial = graph with >= 1 node of in-degree >= 2 and >= 1 node of "
+            "instance (workflow files side by side, in sub-directories under the same file name, or shared), each plan compared with its own graph; "
+            "plus simulations (BatchPlanning pairings, crowded plans with ingests ending together) in which the plan every observation carries when it is handed to the scheduler is compared with its own workflow; non-trivial = graph with >= 1 node of in-degree >= 2 and >= 1 node of "
             "out-degree >= 2; distinct = distinct canonical case JSON")
     level_text = ("exploration: bijection node<->task, unique ids carrying the observation name, compute/data demands, predecessor id "
                   "lists, per-edge volumes keyed by predecessor id, relabelled graph with exactly the mapped edges, topological task "
@@ -541,10 +542,43 @@ class C14:
             v['sig'] = v['part']
         return state.split_known(out)
 
+    # ---- simulation part: the plan an observation carries when it is handed to the scheduler mirrors its own workflow
+    sim_cases = {'quick': 240, 'thorough': 2400}
+
+    def sim_body(self, sc, state):
+        from .runner import run_scenario
+        state.evaluations += 1
+        tr = run_scenario(sc)
+        out = [dict(v) for v in O.online(tr, 'C14')]
+        n = tr.counts.get('plans_checked_at_handover', 0)
+        state.count('sim_runs')
+        state.count('sim_plans_checked', n)
+        stored = {}
+        for name, r in tr.obs.items():
+            if r.get('begin') is not None:
+                stored.setdefault(int(r['begin']) + len(r['deposits']), []).append(name)
+        if any(len(v) >= 2 for v in stored.values()):
+            state.count('sim_runs_with_ingests_ending_together')
+        if n >= 2:
+            state.nontrivial.add(case_hash(sc))
+        for v in out:
+            v['sig'] = v['part']
+        return state.split_known(out)
+
     def replay_case(self, case, state):
+        if isinstance(case, dict) and 'machines' in case:
+            return self.sim_body(case, state)
         return self.body(case, state)
 
     def run_shard(self, state, tier, seed, shard, nshards, cases=None):
+        from .props_sim import SIZES, crowd, tight
+        kw = dict(SIZES[tier])
+        sims = mix((2, crowd(kw, algs=('batch', 'queue'))), (1, tight(kw, algs=('batch', 'queue'))),
+                   (1, swarm(kw, algs=('batch', 'queue'))), (1, scenarios(algs=('batch', 'queue'), min_obs=2, twins=True, **kw)))
+        run_given(state, sims, self.sim_body, max(1, (cases or self.sim_cases[tier]) // nshards),
+                  shard_seed(seed, self.prop, shard, 'sim'))
+        if state.failures:
+            return
         total = cases or self.cases[tier]
         one = c14_cases(14 if tier == 'quick' else 20)
 
@@ -841,9 +875,12 @@ class C16:
     @staticmethod
     def sim_strategy():
         def mk(t):
-            sc, u, ks, order, lim = t
+            sc, u, ks, order, lim, slow = t
             sc = json.loads(json.dumps(sc))
             f, b = sc['machines'][0]['flops'], sc['machines'][0]['bw']
+            if slow:
+                # a machine delivering less than one flop / byte per second (whole numbers of steps in both units all the same)
+                f, b = slow
             sc['machines'] = [{'flops': f, 'bw': b} for _ in sc['machines']]          # homogeneous: runtime independent of placement
             uf = {'minutes': 60}.get(u, u)
             i = 0
@@ -869,7 +906,8 @@ class C16:
         # small custom factors keep the seconds-unit run short; the unit *spellings* are covered by the parse-level part
         return st.tuples(base, st.sampled_from([2, 3, 5, 7]), st.lists(st.integers(1, 3), min_size=1, max_size=6),
                          st.sampled_from(['seq', 'built_first', 'built_first_rev']),
-                         st.sampled_from([0, 0, 0, 3, -1, -0.5])).map(mk)
+                         st.sampled_from([0, 0, 0, 3, -1, -0.5]),
+                         st.sampled_from([None, None, None, (0.5, 1), (0.25, 0.5), (0.5, 0.25)])).map(mk)
 
     def sim_body(self, case, state):
         from .runner import run_pair
@@ -950,11 +988,15 @@ register(C16)
 
 # ========================================================================================= C18
 
-class TierObs:
-    def __init__(self, name, size):
-        self.name = name
-        self.total_data_size = size
-        self.buffer_id = 0
+def TierObs(name, size):
+    """a real Observation that has been fully ingested: rate x duration == stored size (a whole number of steps)"""
+    from topsim.core.instrument import Observation, RunStatus
+    rate = next(r for r in (5, 3, 2, 1) if size % r == 0)
+    o = Observation(name, 0, size // rate, 1, None, rate)
+    o.total_data_size = size
+    o.status = RunStatus.FINISHED
+    o.ast = 0
+    return o
 
 
 class TierModel:
